@@ -18,6 +18,17 @@ use std::sync::mpsc;
 mod c02_mutate;
 use c02_mutate::*;
 
+/// Producing an error includes FORMATTING it (on wasm every error reaches the caller through its Display text; natively
+/// several constructors stringify it): every error a parser returns is formatted here, inside the guarded call, in all
+/// the ways the library itself does - Display, Debug, to_string and the DeserializeError -> JsError conversion.
+trait ErrObs { fn obs(self) -> String; }
+impl ErrObs for DeserializeError {
+    fn obs(self) -> String { let _ = format!("{}", self); let _ = format!("{:?}", self); let _ = self.to_string(); let js: JsError = self.into(); js.obs() }
+}
+impl ErrObs for JsError {
+    fn obs(self) -> String { let _ = format!("{}", self); let _ = format!("{:?}", self); let _ = self.to_string(); "err".to_string() }
+}
+
 fn text_of(hex_tok: &str) -> Option<String> { String::from_utf8(unhex_or_dash(hex_tok)).ok() }
 
 // ------------------------------------------------------------------------------------------------ dispatch tables
@@ -75,7 +86,8 @@ pub const CBOR_ONLY_NAMES: &[&str] = &["ConstrPlutusData", "FixedTransaction", "
     "TransactionMetadatum", "TransactionMetadatumLabels"];
 /// further CBOR decoders behind from_bytes (no to_bytes of their own: the observation re-serialises what they expose)
 pub const CBOR_EXTRA_NAMES: &[&str] = &["FixedBlock", "FixedTransactionBodies", "FixedTransactionBody", "FixedVersionedBlock",
-    "FixedTransaction.new_from_body_bytes", "PlutusScript.v2", "PlutusScript.v3", "ByronAddress"];
+    "FixedTransaction.new_from_body_bytes", "FixedTransaction.new", "FixedTransaction.new.wits", "FixedTransaction.new_with_auxiliary.aux",
+    "FixedTxWitnessesSet", "PlutusScript.v2", "PlutusScript.v3", "ByronAddress"];
 pub const HASH_NAMES: &[(&str, usize)] = &[("AnchorDataHash", 32), ("AuxiliaryDataHash", 32), ("BlockHash", 32), ("DataHash", 32), ("Ed25519KeyHash", 28),
     ("GenesisDelegateHash", 28), ("GenesisHash", 28), ("KESVKey", 32), ("PoolMetadataHash", 32), ("ScriptDataHash", 32), ("ScriptHash", 28),
     ("TransactionHash", 32), ("VRFKeyHash", 32), ("VRFVKey", 32)];
@@ -89,49 +101,60 @@ pub const B32_EXTRA_NAMES: &[&str] = &["Address", "Ed25519Signature", "PublicKey
 pub const JSON_ONLY_NAMES: &[&str] = &["GovernanceActionIds", "MintsAssets", "TransactionUnspentOutputs", "TreasuryWithdrawals", "Voters", "Address"];
 
 macro_rules! dec_arms_json { ($name:expr, $bytes:expr; $($t:ident),*) => { match $name { $( stringify!($t) => Some(match <$t>::from_bytes($bytes) {
-    Err(_) => "err".to_string(),
+    Err(e) => e.obs(),
     Ok(x) => { let re = x.to_bytes(); let _ = x.to_hex(); let _ = x.to_json(); format!("ok {}", hex_or_dash(&re)) } }), )* _ => None } } }
 macro_rules! dec_arms_plain { ($name:expr, $bytes:expr; $($t:ident),*) => { match $name { $( stringify!($t) => Some(match <$t>::from_bytes($bytes) {
-    Err(_) => "err".to_string(),
+    Err(e) => e.obs(),
     Ok(x) => { let re = x.to_bytes(); let _ = x.to_hex(); format!("ok {}", hex_or_dash(&re)) } }), )* _ => None } } }
 macro_rules! hex_arms { ($name:expr, $s:expr; $($t:ident),*) => { match $name { $( stringify!($t) => Some(match <$t>::from_hex($s) {
-    Err(_) => "err".to_string(),
+    Err(e) => e.obs(),
     Ok(x) => format!("ok {}", hex_or_dash(&x.to_bytes())) }), )* _ => None } } }
 macro_rules! json_arms { ($name:expr, $s:expr; $($t:ident),*) => { match $name { $( stringify!($t) => Some(match <$t>::from_json($s) {
-    Err(_) => "err".to_string(),
+    Err(e) => e.obs(),
     Ok(x) => { let _ = x.to_json(); format!("ok {}", hex_or_dash(&x.to_bytes())) } }), )* _ => None } } }
 macro_rules! jsononly_arms { ($name:expr, $s:expr; $($t:ident),*) => { match $name { $( stringify!($t) => Some(match <$t>::from_json($s) {
-    Err(_) => "err".to_string(),
+    Err(e) => e.obs(),
     Ok(x) => { let _ = x.to_json(); "okj".to_string() } }), )* _ => None } } }
 macro_rules! hash_raw_arms { ($name:expr, $bytes:expr; $($t:ident),*) => { match $name { $( stringify!($t) => Some(match <$t>::from_bytes($bytes) {
-    Err(_) => "err".to_string(),
+    Err(e) => e.obs(),
     Ok(x) => { let _ = x.to_hex(); let _ = x.to_bech32("pfx"); format!("ok {}", hex_or_dash(&x.to_bytes())) } }), )* _ => None } } }
 macro_rules! hash_b32_arms { ($name:expr, $s:expr; $($t:ident),*) => { match $name { $( stringify!($t) => Some(match <$t>::from_bech32($s) {
-    Err(_) => "err".to_string(),
+    Err(e) => e.obs(),
     Ok(x) => format!("ok {}", hex_or_dash(&x.to_bytes())) }), )* _ => None } } }
 
+/// a minimal valid transaction body: { 0: #6.258([]), 1: [], 2: 0 }
+const MIN_BODY: [u8; 10] = [0xa3, 0x00, 0xd9, 0x01, 0x02, 0x80, 0x01, 0x80, 0x02, 0x00];
 fn okb(b: Vec<u8>) -> String { format!("ok {}", hex_or_dash(&b)) }
 
 fn dec_cbor(name: &str, bytes: Vec<u8>) -> String {
     if let Some(r) = cbor_json_types!(dec_arms_json, name, bytes.clone()) { return r; }
     if let Some(r) = cbor_only_types!(dec_arms_plain, name, bytes.clone()) { return r; }
     match name {
-        "FixedBlock" => match FixedBlock::from_bytes(bytes) { Err(_) => "err".into(), Ok(x) => {
+        "FixedBlock" => match FixedBlock::from_bytes(bytes) { Err(e) => e.obs(), Ok(x) => {
             let _ = x.block_hash(); let _ = x.invalid_transactions(); let _ = x.auxiliary_data_set();
             let _ = x.transaction_witness_sets().to_bytes(); let _ = x.transaction_bodies();
             okb(x.header().to_bytes()) } },
-        "FixedTransactionBodies" => match FixedTransactionBodies::from_bytes(bytes) { Err(_) => "err".into(), Ok(x) => {
+        "FixedTransactionBodies" => match FixedTransactionBodies::from_bytes(bytes) { Err(e) => e.obs(), Ok(x) => {
             // re-serialise as the array of the original body bytes
             let mut out = vec![0x9fu8]; for i in 0..x.len() { out.extend(x.get(i).original_bytes()); let _ = x.get(i).tx_hash(); } out.push(0xff); okb(out) } },
-        "FixedTransactionBody" => match FixedTransactionBody::from_bytes(bytes) { Err(_) => "err".into(), Ok(x) => {
+        "FixedTransactionBody" => match FixedTransactionBody::from_bytes(bytes) { Err(e) => e.obs(), Ok(x) => {
             let _ = x.tx_hash(); let _ = x.transaction_body().to_bytes(); okb(x.original_bytes()) } },
-        "FixedVersionedBlock" => match FixedVersionedBlock::from_bytes(bytes) { Err(_) => "err".into(), Ok(x) => {
+        "FixedVersionedBlock" => match FixedVersionedBlock::from_bytes(bytes) { Err(e) => e.obs(), Ok(x) => {
             let _ = x.era(); okb(x.block().header().to_bytes()) } },
-        "FixedTransaction.new_from_body_bytes" => match FixedTransaction::new_from_body_bytes(&bytes) { Err(_) => "err".into(), Ok(x) => {
+        "FixedTransaction.new_from_body_bytes" => match FixedTransaction::new_from_body_bytes(&bytes) { Err(e) => e.obs(), Ok(x) => {
             let _ = x.transaction_hash(); let _ = x.body().to_bytes(); okb(x.to_bytes()) } },
-        "PlutusScript.v2" => match PlutusScript::from_bytes_v2(bytes) { Err(_) => "err".into(), Ok(x) => { let _ = x.hash(); okb(x.to_bytes()) } },
-        "PlutusScript.v3" => match PlutusScript::from_bytes_v3(bytes) { Err(_) => "err".into(), Ok(x) => { let _ = x.hash(); okb(x.to_bytes()) } },
-        "ByronAddress" => match ByronAddress::from_bytes(bytes) { Err(_) => "err".into(), Ok(x) => {
+        // raw-bytes constructors of FixedTransaction (they stringify the decoding error) and the raw-preserving witness set
+        "FixedTransaction.new" => match FixedTransaction::new(&bytes, &[0xa0], true) { Err(e) => e.obs(), Ok(x) => {
+            let _ = x.transaction_hash(); okb(x.to_bytes()) } },
+        "FixedTransaction.new.wits" => match FixedTransaction::new(&MIN_BODY, &bytes, true) { Err(e) => e.obs(), Ok(x) => {
+            let _ = x.witness_set().to_bytes(); let _ = x.raw_witness_set(); okb(x.to_bytes()) } },
+        "FixedTransaction.new_with_auxiliary.aux" => match FixedTransaction::new_with_auxiliary(&MIN_BODY, &[0xa0], &bytes, true) { Err(e) => e.obs(), Ok(x) => {
+            let _ = x.auxiliary_data().map(|a| a.to_bytes()); okb(x.to_bytes()) } },
+        "FixedTxWitnessesSet" => match FixedTxWitnessesSet::from_bytes(bytes) { Err(e) => e.obs(), Ok(x) => {
+            let _ = x.tx_witnesses_set().to_bytes(); okb(x.to_bytes()) } },
+        "PlutusScript.v2" => match PlutusScript::from_bytes_v2(bytes) { Err(e) => e.obs(), Ok(x) => { let _ = x.hash(); okb(x.to_bytes()) } },
+        "PlutusScript.v3" => match PlutusScript::from_bytes_v3(bytes) { Err(e) => e.obs(), Ok(x) => { let _ = x.hash(); okb(x.to_bytes()) } },
+        "ByronAddress" => match ByronAddress::from_bytes(bytes) { Err(e) => e.obs(), Ok(x) => {
             let _ = x.to_base58(); let _ = x.byron_protocol_magic(); let _ = x.attributes(); let _ = x.network_id(); let _ = x.to_address().to_bytes();
             okb(x.to_bytes()) } },
         _ => "skip unknown-type".into(),
@@ -141,19 +164,19 @@ fn dec_cbor(name: &str, bytes: Vec<u8>) -> String {
 fn dec_raw(name: &str, bytes: Vec<u8>) -> String {
     if let Some(r) = hash_types!(hash_raw_arms, name, bytes.clone()) { return r; }
     match name {
-        "Address" => match Address::from_bytes(bytes) { Err(_) => "err".into(), Ok(x) => {
+        "Address" => match Address::from_bytes(bytes) { Err(e) => e.obs(), Ok(x) => {
             let _ = x.to_bech32(None); let _ = x.to_hex(); let _ = x.kind(); let _ = x.network_id(); let _ = x.payment_cred(); let _ = x.to_json();
             okb(x.to_bytes()) } },
-        "Ed25519Signature" => match Ed25519Signature::from_bytes(bytes) { Err(_) => "err".into(), Ok(x) => { let _ = x.to_bech32(); let _ = x.to_hex(); okb(x.to_bytes()) } },
-        "KESSignature" => match KESSignature::from_bytes(bytes) { Err(_) => "err".into(), Ok(x) => okb(x.to_bytes()) },
-        "PublicKey" => match PublicKey::from_bytes(&bytes) { Err(_) => "err".into(), Ok(x) => { let _ = x.to_bech32(); let _ = x.hash(); okb(x.as_bytes()) } },
-        "PrivateKey.normal" => match PrivateKey::from_normal_bytes(&bytes) { Err(_) => "err".into(), Ok(x) => { let _ = x.to_public(); let _ = x.to_bech32(); okb(x.as_bytes()) } },
-        "PrivateKey.extended" => match PrivateKey::from_extended_bytes(&bytes) { Err(_) => "err".into(), Ok(x) => { let _ = x.to_public(); let _ = x.to_bech32(); okb(x.as_bytes()) } },
-        "Bip32PrivateKey" => match Bip32PrivateKey::from_bytes(&bytes) { Err(_) => "err".into(), Ok(x) => { let _ = x.to_public(); let _ = x.to_128_xprv(); let _ = x.to_bech32(); okb(x.as_bytes()) } },
-        "Bip32PrivateKey.xprv128" => match Bip32PrivateKey::from_128_xprv(&bytes) { Err(_) => "err".into(), Ok(x) => { let _ = x.to_128_xprv(); okb(x.as_bytes()) } },
+        "Ed25519Signature" => match Ed25519Signature::from_bytes(bytes) { Err(e) => e.obs(), Ok(x) => { let _ = x.to_bech32(); let _ = x.to_hex(); okb(x.to_bytes()) } },
+        "KESSignature" => match KESSignature::from_bytes(bytes) { Err(e) => e.obs(), Ok(x) => okb(x.to_bytes()) },
+        "PublicKey" => match PublicKey::from_bytes(&bytes) { Err(e) => e.obs(), Ok(x) => { let _ = x.to_bech32(); let _ = x.hash(); okb(x.as_bytes()) } },
+        "PrivateKey.normal" => match PrivateKey::from_normal_bytes(&bytes) { Err(e) => e.obs(), Ok(x) => { let _ = x.to_public(); let _ = x.to_bech32(); okb(x.as_bytes()) } },
+        "PrivateKey.extended" => match PrivateKey::from_extended_bytes(&bytes) { Err(e) => e.obs(), Ok(x) => { let _ = x.to_public(); let _ = x.to_bech32(); okb(x.as_bytes()) } },
+        "Bip32PrivateKey" => match Bip32PrivateKey::from_bytes(&bytes) { Err(e) => e.obs(), Ok(x) => { let _ = x.to_public(); let _ = x.to_128_xprv(); let _ = x.to_bech32(); okb(x.as_bytes()) } },
+        "Bip32PrivateKey.xprv128" => match Bip32PrivateKey::from_128_xprv(&bytes) { Err(e) => e.obs(), Ok(x) => { let _ = x.to_128_xprv(); okb(x.as_bytes()) } },
         "Bip32PrivateKey.bip39" => { let x = Bip32PrivateKey::from_bip39_entropy(&bytes, &[]); okb(x.as_bytes()) },
-        "Bip32PublicKey" => match Bip32PublicKey::from_bytes(&bytes) { Err(_) => "err".into(), Ok(x) => { let _ = x.to_bech32(); let _ = x.to_raw_key(); okb(x.as_bytes()) } },
-        "LegacyDaedalusPrivateKey" => match LegacyDaedalusPrivateKey::from_bytes(&bytes) { Err(_) => "err".into(), Ok(x) => okb(x.as_bytes()) },
+        "Bip32PublicKey" => match Bip32PublicKey::from_bytes(&bytes) { Err(e) => e.obs(), Ok(x) => { let _ = x.to_bech32(); let _ = x.to_raw_key(); okb(x.as_bytes()) } },
+        "LegacyDaedalusPrivateKey" => match LegacyDaedalusPrivateKey::from_bytes(&bytes) { Err(e) => e.obs(), Ok(x) => okb(x.as_bytes()) },
         _ => "skip unknown-type".into(),
     }
 }
@@ -163,17 +186,17 @@ fn dec_hex(name: &str, s: &str) -> String {
     if let Some(r) = cbor_only_types!(hex_arms, name, s) { return r; }
     if let Some(r) = hash_types!(hex_arms, name, s) { return r; }
     match name {
-        "Address" => match Address::from_hex(s) { Err(_) => "err".into(), Ok(x) => okb(x.to_bytes()) },
-        "Ed25519Signature" => match Ed25519Signature::from_hex(s) { Err(_) => "err".into(), Ok(x) => okb(x.to_bytes()) },
-        "PublicKey" => match PublicKey::from_hex(s) { Err(_) => "err".into(), Ok(x) => okb(x.as_bytes()) },
-        "PrivateKey" => match PrivateKey::from_hex(s) { Err(_) => "err".into(), Ok(x) => okb(x.as_bytes()) },
-        "Bip32PrivateKey" => match Bip32PrivateKey::from_hex(s) { Err(_) => "err".into(), Ok(x) => okb(x.as_bytes()) },
-        "Bip32PublicKey" => match Bip32PublicKey::from_hex(s) { Err(_) => "err".into(), Ok(x) => okb(x.as_bytes()) },
-        "PlutusScript.v2" => match PlutusScript::from_hex_with_version(s, &Language::new_plutus_v2()) { Err(_) => "err".into(), Ok(x) => okb(x.to_bytes()) },
-        "FixedBlock" => match FixedBlock::from_hex(s) { Err(_) => "err".into(), Ok(x) => okb(x.header().to_bytes()) },
-        "FixedTransactionBodies" => match FixedTransactionBodies::from_hex(s) { Err(_) => "err".into(), Ok(_) => "okj".into() },
-        "FixedTransactionBody" => match FixedTransactionBody::from_hex(s) { Err(_) => "err".into(), Ok(x) => okb(x.original_bytes()) },
-        "FixedVersionedBlock" => match FixedVersionedBlock::from_hex(s) { Err(_) => "err".into(), Ok(x) => okb(x.block().header().to_bytes()) },
+        "Address" => match Address::from_hex(s) { Err(e) => e.obs(), Ok(x) => okb(x.to_bytes()) },
+        "Ed25519Signature" => match Ed25519Signature::from_hex(s) { Err(e) => e.obs(), Ok(x) => okb(x.to_bytes()) },
+        "PublicKey" => match PublicKey::from_hex(s) { Err(e) => e.obs(), Ok(x) => okb(x.as_bytes()) },
+        "PrivateKey" => match PrivateKey::from_hex(s) { Err(e) => e.obs(), Ok(x) => okb(x.as_bytes()) },
+        "Bip32PrivateKey" => match Bip32PrivateKey::from_hex(s) { Err(e) => e.obs(), Ok(x) => okb(x.as_bytes()) },
+        "Bip32PublicKey" => match Bip32PublicKey::from_hex(s) { Err(e) => e.obs(), Ok(x) => okb(x.as_bytes()) },
+        "PlutusScript.v2" => match PlutusScript::from_hex_with_version(s, &Language::new_plutus_v2()) { Err(e) => e.obs(), Ok(x) => okb(x.to_bytes()) },
+        "FixedBlock" => match FixedBlock::from_hex(s) { Err(e) => e.obs(), Ok(x) => okb(x.header().to_bytes()) },
+        "FixedTransactionBodies" => match FixedTransactionBodies::from_hex(s) { Err(e) => e.obs(), Ok(_) => "okj".into() },
+        "FixedTransactionBody" => match FixedTransactionBody::from_hex(s) { Err(e) => e.obs(), Ok(x) => okb(x.original_bytes()) },
+        "FixedVersionedBlock" => match FixedVersionedBlock::from_hex(s) { Err(e) => e.obs(), Ok(x) => okb(x.block().header().to_bytes()) },
         _ => "skip unknown-type".into(),
     }
 }
@@ -181,13 +204,13 @@ fn dec_hex(name: &str, s: &str) -> String {
 fn dec_b32(name: &str, s: &str) -> String {
     if let Some(r) = hash_types!(hash_b32_arms, name, s) { return r; }
     match name {
-        "Address" => match Address::from_bech32(s) { Err(_) => "err".into(), Ok(x) => { let _ = x.to_bech32(None); okb(x.to_bytes()) } },
-        "Ed25519Signature" => match Ed25519Signature::from_bech32(s) { Err(_) => "err".into(), Ok(x) => okb(x.to_bytes()) },
-        "PublicKey" => match PublicKey::from_bech32(s) { Err(_) => "err".into(), Ok(x) => okb(x.as_bytes()) },
-        "PrivateKey" => match PrivateKey::from_bech32(s) { Err(_) => "err".into(), Ok(x) => okb(x.as_bytes()) },
-        "Bip32PrivateKey" => match Bip32PrivateKey::from_bech32(s) { Err(_) => "err".into(), Ok(x) => okb(x.as_bytes()) },
-        "Bip32PublicKey" => match Bip32PublicKey::from_bech32(s) { Err(_) => "err".into(), Ok(x) => okb(x.as_bytes()) },
-        "DRep" => match DRep::from_bech32(s) { Err(_) => "err".into(), Ok(x) => { let _ = x.to_bech32(true); let _ = x.to_bech32(false); okb(x.to_bytes()) } },
+        "Address" => match Address::from_bech32(s) { Err(e) => e.obs(), Ok(x) => { let _ = x.to_bech32(None); okb(x.to_bytes()) } },
+        "Ed25519Signature" => match Ed25519Signature::from_bech32(s) { Err(e) => e.obs(), Ok(x) => okb(x.to_bytes()) },
+        "PublicKey" => match PublicKey::from_bech32(s) { Err(e) => e.obs(), Ok(x) => okb(x.as_bytes()) },
+        "PrivateKey" => match PrivateKey::from_bech32(s) { Err(e) => e.obs(), Ok(x) => okb(x.as_bytes()) },
+        "Bip32PrivateKey" => match Bip32PrivateKey::from_bech32(s) { Err(e) => e.obs(), Ok(x) => okb(x.as_bytes()) },
+        "Bip32PublicKey" => match Bip32PublicKey::from_bech32(s) { Err(e) => e.obs(), Ok(x) => okb(x.as_bytes()) },
+        "DRep" => match DRep::from_bech32(s) { Err(e) => e.obs(), Ok(x) => { let _ = x.to_bech32(true); let _ = x.to_bech32(false); okb(x.to_bytes()) } },
         _ => "skip unknown-type".into(),
     }
 }
@@ -196,7 +219,7 @@ fn dec_json(name: &str, s: &str) -> String {
     if let Some(r) = cbor_json_types!(json_arms, name, s) { return r; }
     if let Some(r) = json_only_types!(jsononly_arms, name, s) { return r; }
     match name {
-        "Address" => match Address::from_json(s) { Err(_) => "err".into(), Ok(x) => { let _ = x.to_json(); okb(x.to_bytes()) } },
+        "Address" => match Address::from_json(s) { Err(e) => e.obs(), Ok(x) => { let _ = x.to_json(); okb(x.to_bytes()) } },
         _ => "skip unknown-type".into(),
     }
 }
@@ -209,40 +232,40 @@ fn call_fn(name: &str, a: &[String]) -> String {
     let t = |i: usize| -> Option<String> { a.get(i).and_then(|x| text_of(x)) };
     match name {
         "md_from_json" => { let s = match t(1) { Some(s) => s, None => return "err".into() };
-            match encode_json_str_to_metadatum(s, md_schema(&a[0])) { Err(_) => "err".into(), Ok(m) => {
+            match encode_json_str_to_metadatum(s, md_schema(&a[0])) { Err(e) => e.obs(), Ok(m) => {
                 for k in ["0", "1", "2"] { let _ = decode_metadatum_to_json_str(&m, md_schema(k)); }
                 okb(m.to_bytes()) } } }
-        "md_to_json" => match TransactionMetadatum::from_bytes(unhex_or_dash(&a[1])) { Err(_) => "err".into(), Ok(m) =>
-            match decode_metadatum_to_json_str(&m, md_schema(&a[0])) { Err(_) => "err".into(), Ok(js) =>
+        "md_to_json" => match TransactionMetadatum::from_bytes(unhex_or_dash(&a[1])) { Err(e) => e.obs(), Ok(m) =>
+            match decode_metadatum_to_json_str(&m, md_schema(&a[0])) { Err(e) => e.obs(), Ok(js) =>
                 // the JSON text the converter emitted must be accepted back by the JSON reader
-                match encode_json_str_to_metadatum(js, md_schema(&a[0])) { Err(_) => "okj".into(), Ok(m2) => okb(m2.to_bytes()) } } },
-        "md_arbitrary_bytes" => match TransactionMetadatum::from_bytes(unhex_or_dash(&a[0])) { Err(_) => "err".into(), Ok(m) =>
-            match decode_arbitrary_bytes_from_metadatum(&m) { Err(_) => "err".into(), Ok(b) => okb(encode_arbitrary_bytes_as_metadatum(&b).to_bytes()) } },
+                match encode_json_str_to_metadatum(js, md_schema(&a[0])) { Err(e) => { let _ = e.obs(); "okj".into() }, Ok(m2) => okb(m2.to_bytes()) } } },
+        "md_arbitrary_bytes" => match TransactionMetadatum::from_bytes(unhex_or_dash(&a[0])) { Err(e) => e.obs(), Ok(m) =>
+            match decode_arbitrary_bytes_from_metadatum(&m) { Err(e) => e.obs(), Ok(b) => okb(encode_arbitrary_bytes_as_metadatum(&b).to_bytes()) } },
         "pd_from_json" => { let s = match t(1) { Some(s) => s, None => return "err".into() };
-            match PlutusData::from_json(&s, pd_schema(&a[0])) { Err(_) => "err".into(), Ok(d) => {
+            match PlutusData::from_json(&s, pd_schema(&a[0])) { Err(e) => e.obs(), Ok(d) => {
                 for k in ["0", "1"] { let _ = decode_plutus_datum_to_json_str(&d, pd_schema(k)); let _ = d.to_json(pd_schema(k)); }
                 okb(d.to_bytes()) } } }
-        "pd_to_json" => match PlutusData::from_bytes(unhex_or_dash(&a[1])) { Err(_) => "err".into(), Ok(d) =>
-            match decode_plutus_datum_to_json_str(&d, pd_schema(&a[0])) { Err(_) => "err".into(), Ok(js) =>
-                match encode_json_str_to_plutus_datum(&js, pd_schema(&a[0])) { Err(_) => "okj".into(), Ok(d2) => okb(d2.to_bytes()) } } },
+        "pd_to_json" => match PlutusData::from_bytes(unhex_or_dash(&a[1])) { Err(e) => e.obs(), Ok(d) =>
+            match decode_plutus_datum_to_json_str(&d, pd_schema(&a[0])) { Err(e) => e.obs(), Ok(js) =>
+                match encode_json_str_to_plutus_datum(&js, pd_schema(&a[0])) { Err(e) => { let _ = e.obs(); "okj".into() }, Ok(d2) => okb(d2.to_bytes()) } } },
         "ns_from_json" => { let s = match t(1) { Some(s) => s, None => return "err".into() };
             let xpub = t(2).unwrap_or_default();
             let schema = if a[0] == "0" { ScriptSchema::Wallet } else { ScriptSchema::Node };
-            match encode_json_str_to_native_script(&s, &xpub, schema) { Err(_) => "err".into(), Ok(n) => okb(n.to_bytes()) } }
+            match encode_json_str_to_native_script(&s, &xpub, schema) { Err(e) => e.obs(), Ok(n) => okb(n.to_bytes()) } }
         "emip3_decrypt" => { let (p, d) = match (t(0), t(1)) { (Some(p), Some(d)) => (p, d), _ => return "err".into() };
-            match decrypt_with_password(&p, &d) { Err(_) => "err".into(), Ok(_) => "okj".into() } }
+            match decrypt_with_password(&p, &d) { Err(e) => e.obs(), Ok(_) => "okj".into() } }
         "emip3_encrypt" => { let v: Vec<String> = (0..4).filter_map(|i| t(i)).collect(); if v.len() < 4 { return "err".into(); }
-            match encrypt_with_password(&v[0], &v[1], &v[2], &v[3]) { Err(_) => "err".into(), Ok(c) =>
-                match decrypt_with_password(&v[0], &c) { Err(_) => "okj".into(), Ok(_) => "okj".into() } } }
+            match encrypt_with_password(&v[0], &v[1], &v[2], &v[3]) { Err(e) => e.obs(), Ok(c) =>
+                match decrypt_with_password(&v[0], &c) { Err(e) => { let _ = e.obs(); "okj".into() }, Ok(_) => "okj".into() } } }
         "b58" => { let s = match t(0) { Some(s) => s, None => return "err".into() };
             let v = ByronAddress::is_valid(&s);
-            match ByronAddress::from_base58(&s) { Err(_) => if v { "panic".into() } else { "err".into() }, Ok(x) => { let _ = x.to_base58(); okb(x.to_bytes()) } } }
+            match ByronAddress::from_base58(&s) { Err(e) => { let _ = e.obs(); if v { "panic".into() } else { "err".into() } }, Ok(x) => { let _ = x.to_base58(); okb(x.to_bytes()) } } }
         "bignum_str" => { let s = match t(0) { Some(s) => s, None => return "err".into() };
-            match BigNum::from_str(&s) { Err(_) => "err".into(), Ok(x) => okb(x.to_bytes()) } }
+            match BigNum::from_str(&s) { Err(e) => e.obs(), Ok(x) => okb(x.to_bytes()) } }
         "bigint_str" => { let s = match t(0) { Some(s) => s, None => return "err".into() };
-            match BigInt::from_str(&s) { Err(_) => "err".into(), Ok(x) => { let _ = x.to_str(); let _ = x.as_u64(); let _ = x.as_int(); okb(x.to_bytes()) } } }
+            match BigInt::from_str(&s) { Err(e) => e.obs(), Ok(x) => { let _ = x.to_str(); let _ = x.as_u64(); let _ = x.as_int(); okb(x.to_bytes()) } } }
         "int_str" => { let s = match t(0) { Some(s) => s, None => return "err".into() };
-            match Int::from_str(&s) { Err(_) => "err".into(), Ok(x) => { let _ = x.to_str(); let _ = x.as_i32(); okb(x.to_bytes()) } } }
+            match Int::from_str(&s) { Err(e) => e.obs(), Ok(x) => { let _ = x.to_str(); let _ = x.as_i32(); okb(x.to_bytes()) } } }
         // an Int built through the public constructors, serialised (row 6): arg = magnitude, sign
         "int_new" => { let m: u64 = a[1].parse().unwrap_or(0); let n = BigNum::from_str(&m.to_string()).unwrap();
             let x = if a[0] == "-" { Int::new_negative(&n) } else { Int::new(&n) }; let _ = x.to_str(); okb(x.to_bytes()) }
@@ -272,8 +295,8 @@ fn exec(toks: &[String]) -> String {
 }
 
 macro_rules! tojson_arms { ($name:expr, $bytes:expr; $($t:ident),*) => { match $name { $( stringify!($t) => Some(match <$t>::from_bytes($bytes) {
-    Err(_) => "err".to_string(),
-    Ok(x) => match x.to_json() { Ok(js) => format!("ok {}", hex_or_dash(js.as_bytes())), Err(_) => "err".to_string() } }), )* _ => None } } }
+    Err(e) => e.obs(),
+    Ok(x) => match x.to_json() { Ok(js) => format!("ok {}", hex_or_dash(js.as_bytes())), Err(e) => e.obs() } }), )* _ => None } } }
 /// helper for the generator (not an observation): the JSON text of a valid value
 fn tojson(name: &str, bytes: Vec<u8>) -> String { cbor_json_types!(tojson_arms, name, bytes.clone()).unwrap_or_else(|| "err".into()) }
 
